@@ -32,7 +32,7 @@ theorem two_pow_half_model : ((1 : Fq) + 1).pow (4 * sqrtK + 2) = -1 := by decid
 theorem two_pow_half : ((1 : Fq) + 1) ^ (4 * sqrtK + 2) = -1 := by
   rw [← Fq.pow_eq]; exact two_pow_half_model
 theorem one_ne_neg_one : (1 : Fq) ≠ -1 := by decide +kernel
-theorem two_ne_zero : ((1 : Fq) + 1) ≠ 0 := by decide +kernel
+theorem one_add_one_ne_zero : ((1 : Fq) + 1) ≠ 0 := by decide +kernel
 
 theorem is_one_iff (x : Fq) : x.is_one = true ↔ x = 1 := by
   unfold Fq.is_one Fq.val
@@ -208,7 +208,7 @@ theorem Fq.div2_eq_of_add_self (d e : Fq) (h : e + e = d) : d.div2 = e := by
     calc ((1 : Fq) + 1) * (d.div2 - e) = (d.div2 + d.div2) - (e + e) := by ring
       _ = 0 := by rw [this, h, sub_self]
   rcases mul_eq_zero.1 h1 with h2 | h2
-  · exact absurd h2 Fq.two_ne_zero
+  · exact absurd h2 Fq.one_add_one_ne_zero
   · exact sub_eq_zero.1 h2
 
 def Fq2.sqrtY (a w : Fq) : Option Fq :=
@@ -257,7 +257,7 @@ theorem Fq.neg_two_sq_not_sq (c : Fq) (hc : c ≠ 0) : ¬ ∃ t, t * t = -(c * c
   have hcc : c * c + c * c ≠ 0 := by
     have : c * c + c * c = ((1 : Fq) + 1) * (c * c) := by ring
     rw [this]
-    exact Fq.mul_ne_zero_of Fq.two_ne_zero (Fq.mul_ne_zero_of hc hc)
+    exact Fq.mul_ne_zero_of Fq.one_add_one_ne_zero (Fq.mul_ne_zero_of hc hc)
   have ht0 : t ≠ 0 := by
     intro e; rw [e, mul_zero] at ht
     exact hcc (neg_eq_zero.1 ht.symm)
@@ -407,7 +407,7 @@ theorem sqrt_complete_general (c : Fq2) (hb : (c * c).c1 ≠ 0) : ((c * c).sqrt)
   have htz : ¬ t.is_zero = true := by rw [Fq.is_zero_iff]; exact ht0
   have hd0 : t + t ≠ 0 := by
     have : t + t = ((1 : Fq) + 1) * t := by ring
-    rw [this]; exact Fq.mul_ne_zero_of Fq.two_ne_zero ht0
+    rw [this]; exact Fq.mul_ne_zero_of Fq.one_add_one_ne_zero ht0
   have hdz : ¬ (t + t).is_zero = true := by rw [Fq.is_zero_iff]; exact hd0
   obtain ⟨i, hi, hinv⟩ := Fq.inverse_spec (t + t) hd0
   unfold sqrtFinish
